@@ -267,13 +267,29 @@ theorem step_shl (a k : Nat) (q : Option Nat) (av : AV) (h : astep signed env n 
               rw [W64_eq, ← pow_add]; congr 1; omega
             have hdiv : ρ a * 2 ^ k / W64 = ρ a / 2 ^ (64 - k) := by
               rw [hsplit]; exact Int.mul_ediv_mul_of_pos_left _ _ hpos
-            refine And.intro ⟨?_, ?_, ?_, ?_, trivial⟩ (by first | trivial | rfl)
-            · dsimp only; omega
-            · dsimp only; omega
-            · dsimp only; rw [hρ, Int.emod_def]
+            have hdvd : (2 : Int) ^ k ∣ (ρ a * 2 ^ k) % W64 := by
+              rw [Int.emod_def]
               apply Int.dvd_sub
               · exact Dvd.intro_left _ rfl
               · rw [hsplit]; exact Dvd.dvd.mul_right (Dvd.intro_left _ rfl) _
+            have hupper : (ρ a * 2 ^ k) % W64 ≤ W64 - 2 ^ k := by
+              obtain ⟨t, ht⟩ := hdvd
+              have hp2 : (0 : Int) < 2 ^ (64 - k) := pow2_pos _
+              rw [ht] at h1 ⊢
+              have ht1 : t < 2 ^ (64 - k) := by
+                by_contra hge
+                have h5 : (2 : Int) ^ (64 - k) ≤ t := by omega
+                have h6 := Int.mul_le_mul_of_nonneg_left h5 (Int.le_of_lt hpos)
+                rw [Int.mul_comm (2 ^ k) (2 ^ (64 - k)), ← hsplit] at h6
+                omega
+              have h3 : 2 ^ k * t ≤ 2 ^ k * (2 ^ (64 - k) - 1) :=
+                Int.mul_le_mul_of_nonneg_left (by omega) (Int.le_of_lt hpos)
+              have h4 : (2 : Int) ^ k * (2 ^ (64 - k) - 1) = W64 - 2 ^ k := by rw [hsplit]; ring
+              omega
+            refine And.intro ⟨?_, ?_, ?_, ?_, trivial⟩ (by first | trivial | rfl)
+            · dsimp only; omega
+            · dsimp only; rw [hρ]; exact hupper
+            · dsimp only; rw [hρ]; exact hdvd
             · dsimp only
               rw [evalPoly_psub, evalPoly_pscale, evalPoly_pscale, evalPoly_patom, hx.poly, hρ, Int.emod_def,
                   hdiv, e2]; ring
